@@ -151,6 +151,11 @@ pub fn generate(prop: &str, _tier: Tier, rng: &mut Rng, _idx: u64) -> Case {
             if deep {
                 cfg.deepen();
             }
+            if rng.chance(1, 4) {
+                // a Maximum Packet Size as well: publishes refused for their size must not take a slot
+                cfg.max_packet = Some(rng.range(30, 60) as u32);
+                cfg.oversize_pct = 30;
+            }
             let r = cfg.receive_max;
             let mut g = Gen::new(cfg, rng);
             g.preamble();
